@@ -116,6 +116,30 @@ pub fn run(tier: Tier) -> i32 {
         }
     }
 
+    // ---- every inherits map x every presence pattern of the target: `a = $t(b)` in every locale ---------
+    // (loops that do not pass through the referencing locale, self-loops, chains to the default ..)
+    {
+        let locs = ["en", "fr", "de", "it"];
+        for m in inherits_maps_local(&locs) {
+            for pat in tuples(3, 3) {
+                // presence of b in fr, de, it: 0 defined, 1 null, 2 absent
+                let mut cfg = Config::simple("en", &locs);
+                cfg.inherits = m.clone();
+                let mut p = Project::new(cfg);
+                for (li, loc) in locs.iter().enumerate() {
+                    let mut e = vec![("a".to_string(), s(vec![text(&format!("[{loc}.a<]")), fk("b")]))];
+                    match if li == 0 { 0 } else { pat[li - 1] } {
+                        0 => e.push(("b".to_string(), s(vec![text(&format!("[{loc}.b]")), var("x")]))),
+                        1 => e.push(("b".to_string(), Val::Null)),
+                        _ => {}
+                    }
+                    p.set_file(None, loc, e);
+                }
+                jobs.push(("inherits-x-null-target", p));
+            }
+        }
+    }
+
     // ---- namespaces: referencing key and target in the same / another namespace ------------------------
     for rt in tuples(REFS.len(), 2) {
         let refs: Vec<Refk> = rt.iter().map(|i| REFS[*i]).collect();
@@ -202,4 +226,8 @@ pub fn debug_one() -> i32 {
     let (e, o) = check_project(&rep, "C06", "debug", &p, &scratch.worker(0), &keys_total);
     eprintln!("expect={e:?} out={}", o.short());
     rep.finish(serde_json::Map::new(), &[])
+}
+
+fn inherits_maps_local(locales: &[&str]) -> Vec<Vec<(String, String)>> {
+    vmodel::gen::inherits_maps(locales)
 }
